@@ -26,7 +26,11 @@ Proof.
   pose proof (ws_head w rest' Hw Hne) as Hh. destruct (ws_facts _ Hh) as (C0&C44&C124).
   rewrite (relation_loop_S (S f)). rewrite C0, C44, C124. cbn [orb].
   unfold parse_possibility. rewrite (eat_ws_app w rest' Hw), (eat_ws_id rest' Nw), N36.
-  cbn [possi_loop]. rewrite N58, Nw, N40. cbn [orb]. pose proof St as St'. unfold stop3 in St'. rewrite St'. reflexivity.
+  cbn [possi_loop]. rewrite N58, Nw, N40. cbn [orb].
+  assert (N91 : eqc (peek rest') 91 || eqc (peek rest') 60 = false).
+  { pose proof (by_enum (fun c => negb (stop3 c) || negb (eqc c 91 || eqc c 60)) eq_refl (peek rest')) as F. cbv beta in F. rewrite St in F. cbn [negb orb] in F. now apply negb_true_iff in F. }
+  apply orb_false_iff in N91 as [N91 N60]. rewrite N91, N60. cbn [orb].
+  pose proof St as St'. unfold stop3 in St'. rewrite St'. reflexivity.
 Qed.
 
 Record alt_ok2 (t : str) (p : possi) : Prop := {
@@ -59,10 +63,10 @@ Proof.
   intros W. constructor.
   - intros rel d we rest' x Hwe St (f2&H2).
     destruct (possi_head_facts p (we ++ rest') (or_intror W)) as (C0&C44&C124).
+    assert (Ee : eat_ws (we ++ rest') = rest').
+    { rewrite (eat_ws_app we rest' Hwe). apply eat_ws_id. unfold headok. now apply stop3_not_ws. }
     exists (S (S (S f2))). intros [|[|[|f]]] Hf; try lia. rewrite relation_loop_S, C0, C44, C124. cbn [orb].
-    rewrite (subst_render p rel (we ++ rest') W). destruct we as [|c we'].
-    + cbn [app]. apply H2. lia.
-    + rewrite relation_skip_ws; [apply H2; lia|exact Hwe|discriminate|exact St].
+    rewrite (subst_render p rel (we ++ rest') W) by (now rewrite Ee). rewrite Ee. apply H2. lia.
   - destruct (possi_string_cons p (or_intror W)) as (c&t&E). exists c, t. split; [exact E|].
     pose proof (possi_string_headok p [] (or_intror W)) as Hh. destruct (possi_head_facts p [] (or_intror W)) as (A&B&C).
     rewrite app_nil_r in *. unfold headok in Hh. rewrite E in *. cbn [peek] in *. auto.
